@@ -24,14 +24,20 @@ def run_case(c):
     reg = rt.Reg()
     out = {}
     try:
-        cls = rt.build_type(c['root'], reg)
         cfg = c.get('cfg', {})
-        meta = {}
-        if cfg.get('xf'): meta['key_transform_with_dump'] = cfg['xf']
-        if cfg.get('dt'): meta['marshal_date_time_as'] = cfg['dt']
-        if cfg.get('tag_key'): meta['tag_key'] = cfg['tag_key']
-        if cfg.get('auto_tags'): meta['auto_assign_tags'] = True
-        rt.bind_meta(cls, meta)
+        if c.get('decl') is not None:
+            # declaration axis: the root class (and every bind_to) comes from generated class source text;
+            # cfg is then the configuration the declaration DOCUMENTS (used by the reference encoder only)
+            import c03_decl
+            cls, out['decl_src'] = c03_decl.build_root(c['root'], c['decl'], reg)
+        else:
+            cls = rt.build_type(c['root'], reg)
+            meta = {}
+            if cfg.get('xf'): meta['key_transform_with_dump'] = cfg['xf']
+            if cfg.get('dt'): meta['marshal_date_time_as'] = cfg['dt']
+            if cfg.get('tag_key'): meta['tag_key'] = cfg['tag_key']
+            if cfg.get('auto_tags'): meta['auto_assign_tags'] = True
+            rt.bind_meta(cls, meta)
         x = rt.build_value(c['value'], reg)
         if c.get('catchall_items') is not None:
             # the CatchAll field is the one flagged in the spec; its dict is given separately
@@ -111,6 +117,10 @@ def run_case(c):
 
 
 def handler(p):
+    if 'decl_programs' in p:
+        # one fresh interpreter per declaration (class source text at module level)
+        import c03_decl
+        return {'programs': c03_decl.run_programs(p['decl_programs'], jobs=p.get('jobs', 8))}
     return {'cases': [run_case(c) for c in p['cases']]}
 
 
